@@ -275,7 +275,16 @@ def _call(args):
 
 def pmap(ctx, modname, funcname, items, builddir, procs=None, env=None, chunks=1):
     """Run mod.func(child_ctx, item) for every item in a pool of spawned workers and merge
-    the children into ctx.  Order of merging is the order of `items` (deterministic)."""
+    the children into ctx.  Order of merging is the order of `items` (deterministic).
+
+    A worker that dies (abort / segfault in native or numba code, external kill) does not
+    hang the run: the unfinished items are re-run one by one, each in a fresh single-worker
+    pool; an item whose worker dies AGAIN is a deterministic crash of the implementation on
+    that item and is reported as a violation (signature sub=process_crash); an item that
+    passes the second time means the first death came from outside -> the run continues."""
+    import concurrent.futures as cf
+    from concurrent.futures.process import BrokenProcessPool
+
     items = list(items)
     if not items:
         return
@@ -293,20 +302,36 @@ def pmap(ctx, modname, funcname, items, builddir, procs=None, env=None, chunks=1
             procs = min(procs, 8)
     procs = max(1, min(procs, len(items)))
     args = [(modname, funcname, ctx.prop, ctx.tier, ctx.seed, ctx.level, it) for it in items]
-    if procs == 1:
-        _worker_init(builddir, env or {})
-        for a in args:
-            ctx.merge(_call(a))
-        return
-    # ProcessPoolExecutor (not multiprocessing.Pool): a worker that dies -- killed, or
-    # std::terminate in a native kernel -- raises BrokenProcessPool instead of hanging the run
-    import concurrent.futures as cf
-    from concurrent.futures.process import BrokenProcessPool
-
     mp = multiprocessing.get_context("spawn")
-    with cf.ProcessPoolExecutor(procs, mp_context=mp, initializer=_worker_init, initargs=(builddir, env or {})) as ex:
-        try:
+
+    def pool(n):
+        return cf.ProcessPoolExecutor(n, mp_context=mp, initializer=_worker_init, initargs=(builddir, env or {}))
+
+    done = 0
+    try:
+        with pool(procs) as ex:
             for exported in ex.map(_call, args, chunksize=chunks):
                 ctx.merge(exported)
-        except BrokenProcessPool as e:
-            raise HarnessError("HARNESS-WORKER-DIED: a pool worker terminated abruptly (%s)" % e)
+                done += 1
+        return
+    except BrokenProcessPool:
+        pass
+    ctx.count("worker_deaths")
+    for a in args[done:]:
+        died = 0
+        for attempt in (1, 2):
+            try:
+                with pool(1) as ex:
+                    ctx.merge(ex.submit(_call, a).result())
+                break
+            except BrokenProcessPool:
+                died += 1
+        if died == 2:
+            item = a[-1]
+            kind = item[0] if isinstance(item, (tuple, list)) and item and isinstance(item[0], str) else type(item).__name__
+            ctx.violation(
+                {"check": ctx.prop, "sub": "process_crash", "item_kind": kind},
+                {"item": jsonable(item), "module": modname, "function": funcname},
+                "the worker process died twice (abort/segfault) while executing work item %r: the implementation crashes the "
+                "interpreter on this input" % (item,),
+            )
